@@ -313,7 +313,7 @@ func c07b(c *Ctx) {
 		// which predicate guards this site
 		var lit string
 		for _, l := range must {
-			if strings.Contains(l, " < $5-1)") && strings.Contains(l, "phi(") {
+			if strings.HasSuffix(l, "+1 < $5)") && strings.Contains(l, "phi(") {
 				lit = l
 			}
 			if strings.Contains(l, "shouldUseLineFeed($0,") {
@@ -332,7 +332,7 @@ func c07b(c *Ctx) {
 		case strings.HasPrefix(lit[1:], "(phi("):
 			// (cur < n-1): '+' means not yet on the last line
 			scroll = lit[0] == '-'
-			cur = strings.TrimSuffix(strings.TrimPrefix(lit[1:], "("), " < $5-1)")
+			cur = strings.TrimSuffix(strings.TrimPrefix(lit[1:], "("), "+1 < $5)")
 		default:
 			scroll = lit[0] == '+'
 			if !strings.HasSuffix(lit, ",$5)") {
